@@ -446,3 +446,30 @@ Proof.
   replace (hlen + p + (31 - (hlen + p - 1) mod 32))%Z with (32 * ((hlen + p - 1) / 32 + 1))%Z by lia.
   rewrite Z.mul_comm. apply Z.mod_mul. lia.
 Qed.
+
+(* ------------------------------------------------------------------ *)
+(* the server's key list over a history of connections                  *)
+(* ------------------------------------------------------------------ *)
+Definition server_answer (keys : list ech_key) (c : bytes) : bool * option bytes :=
+  (server_accepts keys c, if server_accepts keys c then None else retry_list keys).
+
+(* every connection of a history is answered from the CONFIGURED key list *)
+Theorem server_history_configured keys cfgs : server_history keys cfgs = map (server_answer keys) cfgs.
+Proof. induction cfgs as [|c r IH]; cbn [server_history server_step map]; [reflexivity|]. rewrite IH. reflexivity. Qed.
+
+Theorem server_accepts_configured keys k : In k keys -> server_accepts keys (fst k) = true.
+Proof.
+  intros H. unfold server_accepts. apply existsb_exists. exists k. split; [exact H|]. apply bytes_eqb_eq. reflexivity.
+Qed.
+
+Theorem server_rejects_unknown keys c : (forall k, In k keys -> fst k <> c) -> server_accepts keys c = false.
+Proof.
+  intros H. unfold server_accepts.
+  destruct (existsb (fun k => bytes_eqb (fst k) c) keys) eqn:E; [|reflexivity].
+  apply existsb_exists in E. destruct E as (k & Hk & E). apply bytes_eqb_eq in E. exfalso. exact (H k Hk E).
+Qed.
+
+(* the retry list is exactly the SendAsRetry configs, in configuration order *)
+Theorem retry_list_exact keys :
+  retry_list keys = match filter snd keys with [] => None | _ => Some (p16lp (flat_map fst (filter snd keys))) end.
+Proof. unfold retry_list. destruct (filter snd keys); reflexivity. Qed.
